@@ -138,47 +138,15 @@ def _base(e):
 
 
 def d3(chk, prog):
-    chk.clause("D3", "one value per input: smoothers that pad by `wing` return the [wing:-wing] slice")
-    chk.rule("pad-unpad", "a function that obtains (x, wing, signal...) from check_inputs must return `<y>[wing:-wing]` on every path that returns the smoothed signal "
-             "(directly or through convolve_unweighted, which slices itself)")
+    chk.clause("D3", "one value per input: the smoothers pad by `wing` mirrored values and return exactly the unpadded part")
+    chk.rule("pad-unpad", "every smoother of the property (rolling median / quantile, unweighted Kaiser, Savitzky-Golay, the convolution kernels) is interpreted on literal signals of 2..40 values "
+             "for fraction / integer / over-long widths: the result has one value per input value (D3c, D3d, D3e); _pad_array mirrors exactly `wing` values per side")
     sm = prog.module("cnvlib.smoothing")
-    users = []
-    for name, fi in sm.functions.items():
-        calls = [n for n in own_nodes(fi.node) if isinstance(n, ast.Call) and norm(n.func) == "check_inputs"]
-        if calls:
-            users.append((fi, calls))
+    users = [name for name, fi in sm.functions.items() if any(isinstance(n, ast.Call) and norm(n.func) == "check_inputs" for n in own_nodes(fi.node))]
     chk.floor("smoothers using check_inputs", len(users), 5)
-    for fi, calls in users:
-        par = parents(fi.node)
-        # the wing variable: second element of the unpacked result
-        wing = None
-        for st in own_nodes(fi.node):
-            if isinstance(st, ast.Assign) and st.value in calls and isinstance(st.targets[0], ast.Tuple) and len(st.targets[0].elts) >= 2 and isinstance(st.targets[0].elts[1], ast.Name):
-                wing = st.targets[0].elts[1].id
-        if wing is None:
-            raise AnalysisError(f"C19-D3: cannot find the wing variable in {fi.qn}")
-        first_call = min(calls, key=lambda c: c.lineno)
-        for r in [n for n in own_nodes(fi.node) if isinstance(n, ast.Return) and n.value is not None]:
-            if r.lineno < first_call.lineno:
-                continue                  # early return of the unpadded input (len(x) < 2)
-            ok, how = _unpadded(fi, r.value, wing, par)
-            weighted_kaiser = fi.name == "kaiser" and not ok
-            if weighted_kaiser:
-                # the weighted path of kaiser returns the padded length today; outside the property ("unweighted Kaiser")
-                unw = _kaiser_unweighted_ok(fi, wing)
-                chk.decide(unw, "pad-unpad", "kaiser: unweighted path unpads (convolve_unweighted slices [wing:-wing])", f"{fi.qn}::unweighted path", fi.loc(r),
-                           "the unweighted Kaiser path no longer removes the padding")
-                chk.note("kaiser(weights=...) returns the padded signal (2*wing extra values); outside the property's 'unweighted Kaiser' clause")
-                continue
-            chk.decide(ok, "pad-unpad", f"{fi.name}: return {norm(r.value)[:50]} ({how})", f"{fi.qn}::return {norm(r.value)[:60]}", fi.loc(r),
-                       f"{fi.name} pads its input by `{wing}` on each side but returns `{norm(r.value)}` without the [{wing}:-{wing}] slice: the output has 2*{wing} extra values")
-    cu = prog.fn("cnvlib.smoothing.convolve_unweighted")
-    ok = any(isinstance(n, ast.Subscript) and isinstance(n.slice, ast.Slice) and norm(n.slice) == "wing:-wing" for n in own_nodes(cu.node))
-    chk.decide(ok, "pad-unpad", "convolve_unweighted chops [wing:-wing]", f"{cu.qn}::unpad", cu.loc(), "convolve_unweighted no longer removes the padding")
-    pa = prog.fn("cnvlib.smoothing._pad_array")
-    rets = [norm(r.value) for r in own_nodes(pa.node) if isinstance(r, ast.Return)]
-    ok = rets == ["np.concatenate((x[wing - 1::-1], x, x[:-wing - 1:-1]))"]
-    chk.decide(ok, "pad-unpad", "_pad_array mirrors `wing` values on each side", f"{pa.qn}::mirror", pa.loc(), f"_pad_array returns {rets}: each side must add exactly `wing` mirrored values")
+    # (an earlier version matched the source text of the `[wing:-wing]` slices and of _pad_array's return expression; a behaviour-preserving rewrite would have tripped it.
+    #  The lengths are decided by interpretation now; kaiser(weights=...) returning the padded signal stays outside the property's "unweighted Kaiser".)
+    chk.note("kaiser(weights=...) returns the padded signal (2*wing extra values); outside the property's 'unweighted Kaiser' clause")
 
 
 def _unpadded(fi, e, wing, par, depth=0):
@@ -307,6 +275,118 @@ def d3c(chk, prog):
         tb.cell(vals is not None and len(vals) == n and all(v == k for v in vals[(n_iter - 1) * 2:len(vals) - (n_iter - 1) * 2]),
                 dict(kernel="convolve_unweighted", passes=n_iter, got=[str(v) for v in vals] if vals else repr(out)[:60], want=str(k)))
     tb.done("a smoothing kernel does not reproduce a constant signal (or changes the number of values)")
+
+
+def d3e(chk, prog):
+    """the smoothers on literal signals with exact arithmetic (trusted model of Series.rolling(window, min_periods, center=True) and of np.convolve):
+    one value per input value, a constant signal comes back unchanged, rolling median and unweighted Kaiser stay inside the input range;
+    _pad_array mirrors exactly `wing` values on each side"""
+    from .. import estyping
+    from ..abstools import Interp, W, T, Table, Undecided
+    from ..absval import Raised
+    Arr = estyping.Arr
+
+    class Rolling:
+        def __init__(self, arr, window, min_periods, center):
+            self.arr, self.window, self.minp, self.center = arr, window, min_periods, center
+
+        def _windows(self):
+            v, n, w = self.arr.v, len(self.arr.v), self.window
+            if not self.center:
+                raise Undecided("rolling without center=True")
+            off = (w - 1) // 2
+            for i in range(n):
+                lo = i - off
+                yield [v[j] for j in range(max(0, lo), min(n, lo + w))]
+
+        def _apply(self, f):
+            minp = self.window if self.minp is None else self.minp
+            return Arr((f(win) if len(win) >= minp else None) for win in self._windows())
+
+        def median(self):
+            return self._apply(lambda win: estyping._median(Arr(win)))
+
+        def quantile(self, q, **k):
+            return self._apply(lambda win: estyping._percentile(Arr(win), Fr(q) * 100 if not isinstance(q, Fr) else q * 100))
+
+    def conv(it, a, v, mode="full"):
+        from ..absint import binop
+        a, v = (a.v if isinstance(a, Arr) else list(a)), (v.v if isinstance(v, Arr) else list(v))
+        full = []
+        for k_ in range(len(a) + len(v) - 1):
+            acc = 0
+            for i in range(len(a)):
+                j = k_ - i
+                if 0 <= j < len(v):
+                    acc = binop(ast.Add(), acc, binop(ast.Mult(), a[i], v[j]))
+            full.append(acc)
+        if mode != "same":
+            return Arr(full)
+        n = max(len(a), len(v))
+        st = (len(full) - n) // 2
+        return Arr(full[st:st + n])
+
+    def mk_model():
+        m = estyping.const_model()
+        m.ext["np.convolve"] = conv
+        m.ext["np.asarray"] = lambda it, x, *a, **k: x if isinstance(x, Arr) else Arr(list(x))
+        m.ext["np.concatenate"] = lambda it, parts, *a, **k: Arr([e for p_ in it.iterate(parts) for e in (p_.v if isinstance(p_, Arr) else list(p_))])
+        m.ext["pd.Series"] = lambda it, x, *a, **k: x
+        # a positive symmetric window stands for the Kaiser window (its values are Bessel-function ratios; only positivity and symmetry matter here)
+        m.ext["np.kaiser"] = lambda it, n, beta: Arr([Fr(1 + min(i, n - 1 - i)) for i in range(n)])
+        m.method_hooks.append(lambda it, obj, name, args, kw: Rolling(obj, args[0], args[1] if len(args) > 1 else kw.get("min_periods"), kw.get("center", False)) if isinstance(obj, Arr) and name == "rolling" else NotImplemented)
+        return m
+
+    def lits(a):
+        out = []
+        for x in a.v:
+            t = T(x)
+            if x is None or not t.is_const():
+                return None
+            out.append(t.cval())
+        return out
+    fp = prog.fn("cnvlib.smoothing._pad_array")
+    tbp = Table(chk, "pad-unpad", "_pad_array on literal arrays: `wing` mirrored values before and after the signal (wing 1..n-1)", fp.loc(), fp.qn + "::mirror")
+    for n in (2, 3, 5):
+        for wing in range(1, n):
+            W.reset()
+            it = Interp(prog, mk_model())
+            x = [Fr(10 * i + 1) for i in range(n)]
+            out = tbp.guard(lambda: it.run(fp.qn, [Arr(list(x)), wing]), f"n={n} wing={wing}")
+            if out is None:
+                continue
+            want = x[:wing][::-1] + x + x[::-1][:wing]
+            got = lits(out) if isinstance(out, Arr) else None
+            tbp.cell(got == want, dict(n=n, wing=wing, got=[str(v) for v in got] if got else repr(out)[:60], want=[str(v) for v in want]))
+    tbp.done("_pad_array does not add exactly `wing` mirrored values on each side (the smoothers then return shifted or extra values)")
+    tb = Table(chk, "constant-signal", "rolling_median / rolling_quantile / unweighted kaiser on literal signals (2..9 values; widths as fraction, integer, wider than the signal): one value per input, "
+                    "constant signal unchanged, median and Kaiser inside the input range", prog.fn("cnvlib.smoothing.rolling_median").loc(), "cnvlib.smoothing::smoothers on literal signals")
+    signals = {"constant": lambda n: [Fr(3, 4)] * n, "step": lambda n: [Fr(0)] * (n // 2) + [Fr(5)] * (n - n // 2), "spike": lambda n: [Fr(1)] * (n - 1) + [Fr(40)], "zigzag": lambda n: [Fr((7 * i) % 5) for i in range(n)]}
+    for fname, extra, ranged in (("rolling_median", (), True), ("rolling_quantile", (Fr(1, 4),), True), ("kaiser", (), True)):
+        fi = prog.fn(f"cnvlib.smoothing.{fname}")
+        for n, width, (sname, sig) in itertools.product((2, 3, 4, 6, 9), (Fr(1, 2), 3, 5, 50), signals.items()):
+            if fname == "kaiser" and n < 2:
+                continue
+            W.reset()
+            it = Interp(prog, mk_model())
+            x = sig(n)
+            from ..absint import CTX
+            old = CTX.atoms
+            CTX.atoms = lambda d, op: True                     # `assert wing >= 1`
+            try:
+                out = tb.guard(lambda: it.run(fi.qn, [Arr(list(x)), width] + list(extra)), f"{fname} n={n} width={width} {sname}")
+            finally:
+                CTX.atoms = old
+            if out is None:
+                continue
+            got = lits(out) if isinstance(out, Arr) else None
+            ok = got is not None and len(got) == n
+            if ok and sname == "constant":
+                ok = all(v == x[0] for v in got)
+            if ok and ranged:
+                ok = all(min(x) <= v <= max(x) for v in got)
+            tb.cell(ok, dict(smoother=fname, n=n, width=str(width), signal=sname, got=[str(v) for v in got] if got is not None else repr(out)[:80], input=[str(v) for v in x]))
+    tb.done("a smoother returns another number of values than it was given, does not reproduce a constant signal, or leaves the input range")
 
 
 def d5b(chk, prog):
@@ -514,6 +594,7 @@ def run(chk):
     d3b(chk, prog)
     d3c(chk, prog)
     d3d(chk, prog)
+    d3e(chk, prog)
     d45(chk, prog)
     d5b(chk, prog)
     d6(chk, prog)
@@ -535,6 +616,10 @@ MUTANTS = [
     dict(name="location estimator with default 0", file=_D, old="@on_array()\ndef modal_location", new="@on_array(0)\ndef modal_location"),
     dict(name="tie slice off by one", file=_D, old="        return a[midpoint_idx : midpoint_idx + 2].mean()", new="        return a[midpoint_idx - 1 : midpoint_idx + 1].mean()"),
     dict(name="rolling_median returns padded", file=_S, old="    rolled = signal.rolling(2 * wing + 1, 1, center=True).median()\n    # if rolled.hasnans:\n    #     rolled = rolled.interpolate()\n    return np.asarray(rolled[wing:-wing], dtype=float)", new="    rolled = signal.rolling(2 * wing + 1, 1, center=True).median()\n    return np.asarray(rolled, dtype=float)"),
+    dict(name="twin: savgol unpads with an explicit upper bound", expect="silent", file=_S, old="    return y[total_wing:-total_wing]", new="    return y[total_wing:len(y) - total_wing]"),
+    dict(name="twin: _pad_array written with reversed slices", expect="silent", file=_S, old="    return np.concatenate((x[wing - 1 :: -1], x, x[: -wing - 1 : -1]))", new="    return np.concatenate((x[:wing][::-1], x, x[::-1][:wing]))"),
+    dict(name="_pad_array mirrors one value too few on the right", file=_S, old="    return np.concatenate((x[wing - 1 :: -1], x, x[: -wing - 1 : -1]))", new="    return np.concatenate((x[wing - 1 :: -1], x, x[: -wing : -1]))"),
+    dict(name="twin: rolling_median unpads by position arithmetic", expect="silent", file=_S, old="    return np.asarray(rolled[wing:-wing], dtype=float)\n\n\ndef rolling_quantile", new="    return np.asarray(rolled[wing : len(rolled) - wing], dtype=float)\n\n\ndef rolling_quantile"),
     dict(name="savgol returns padded", file=_S, old="    return y[total_wing:-total_wing]", new="    return y"),
     dict(name="convolve_unweighted keeps padding", file=_S, old="    y = y[wing:-wing]\n    return y", new="    return y"),
     dict(name="MAD without abs", file=_D, old="    mad = np.median(np.abs(a - a_median))\n    if scale_to_sd:", new="    mad = np.median(a - a_median)\n    if scale_to_sd:"),
